@@ -135,6 +135,8 @@ func c12ModuleRun(env world.Env, amount int64, denomMode int, D time.Duration, n
 			coins = coins.Add(sdk.NewInt64Coin("uatom", amount*3+1)) // the earlier-sorted denomination is the larger one
 		} else if denomMode == 2 {
 			coins = coins.Add(sdk.NewInt64Coin("uatom", 7)) // ... or a tiny one that often accrues nothing in a block
+		} else if denomMode == 3 {
+			coins = sdk.NewCoins(sdk.NewInt64Coin("uatom", amount+j)) // a gauge holding no ujkl at all
 		}
 		end := start.Add(D).Add(time.Duration(j) * time.Hour)
 		pg := k.NewGauge(ctx, coins, end)
@@ -302,7 +304,7 @@ func c12EnumModule(thorough bool) mc.Enum {
 	seqs := nonDecreasingSeqs(9, maxLen)
 	for _, amt := range amounts {
 		for _, D := range durs {
-			for _, two := range []int{0, 1, 2} {
+			for _, two := range []int{0, 1, 2, 3} {
 				for _, n := range []int{1, 3, -2, -3, 101, 102} {
 					amt, D, two, n := amt, D, two, n
 					e.Cases = append(e.Cases, mc.Case{Desc: fmt.Sprintf("module|amount=%d|D=%s|denoms=%d|gauges=%d|%d sequences of <=%d reward times", amt, D, two, n, len(seqs), maxLen), Run: func(env world.Env) mc.CaseResult {
